@@ -18,7 +18,7 @@ import subprocess
 import common
 import pytrans
 
-ERRS = {"OverflowError": "OverflowError", "TypeError": "TypeError", "KeyError": "KeyError", "IndexError": "IndexError", "Empty": "Empty", "AttributeError": "AttributeError",
+ERRS = {"AdbTimeoutError": "AdbTimeoutError", "OverflowError": "OverflowError", "TypeError": "TypeError", "KeyError": "KeyError", "IndexError": "IndexError", "Empty": "Empty", "AttributeError": "AttributeError",
         "ValueError": "ValueError", "error": "StructError"}
 
 
@@ -280,7 +280,55 @@ def cases_keys(rng, n):
     return out
 
 
-GROUPS = {"keys": cases_keys, "store": cases_store, "txn": cases_txn, "fsinfo": cases_fsinfo, "message": cases_message, "device": cases_device}
+class _Info(object):
+    pass
+
+
+def cases_loops(rng, n):
+    """the extracted loop iterations of _read_bytes_from_device / _write_all (both twins): the SAME rewritten body (effects as parameters) is executed as Python
+    and as generated Lean on states around every branch: complete / incomplete reads, empty reads, over-delivery, deadline passed or not, None timeouts,
+    short / full / zero / None write counts."""
+    import ast
+    out = []
+    units = dict(pytrans.build_units(common.REPO))
+    for fname, cls in (("adb_device.py", "AdbDevice"), ("adb_device_async.py", "AdbDeviceAsync")):
+        u = units[fname]
+        for meth in ("read_bytes_from_device", "write_all"):
+            for suffix in ("cond", "iter", "eff0_args"):
+                lean_name = "%s_%s_%s" % (cls, meth, suffix)
+                fn = u.fns.get(lean_name)
+                if fn is None or any(isinstance(st, ast.Global) for st in fn["body"]):
+                    continue
+                code = compile(ast.fix_missing_locations(ast.Module(body=[ast.FunctionDef(
+                    name="f", args=ast.arguments(posonlyargs=[], args=[ast.arg(arg=p) for p in fn["params"]], kwonlyargs=[], kw_defaults=[], defaults=[]),
+                    body=copy.deepcopy(fn["body"]), decorator_list=[])], type_ignores=[])), "<%s>" % lean_name, "exec")
+                import adb_shell.exceptions as exceptions
+                ns = {"exceptions": exceptions}
+                exec(code, ns)
+                for _ in range(max(6, n // 6)):
+                    info = _Info()
+                    info.__class__ = type("_AdbTransactionInfo", (), {})
+                    info.read_timeout_s = rng.choice([None, 0, 5, 10])
+                    info.transport_timeout_s = rng.choice([None, 1, 10])
+                    vals = {}
+                    start = rng.randrange(0, 1000)
+                    if meth == "read_bytes_from_device":
+                        length = rng.choice([0, 1, 4, 24])
+                        got = rng.choice([0, 1, length, max(0, length - 1), length + 2])
+                        vals = dict(adb_info=info, data=bytearray(rng.randbytes(rng.choice([0, 3]))), length=length, start=start, temp=b"", eff0=rng.randbytes(got),
+                                    now=start + rng.choice([0, 5, 6, 11]))
+                    else:
+                        data = rng.randbytes(rng.choice([0, 1, 5, 24]))
+                        vals = dict(adb_info=info, data=data, num_written=None, start=start, eff0=rng.choice([None, 0, 1, len(data), len(data) + 1, max(0, len(data) - 1)]),
+                                    now=start + rng.choice([0, 5, 6, 11]))
+                    args = [vals[p_] for p_ in fn["params"]]
+                    largs = " ".join(lean(copy.deepcopy(a)) for a in args)
+                    exp = outcome(ns["f"], *[copy.deepcopy(a) for a in args])
+                    out.append(("showM (%s %s)" % (lean_name, largs), exp, "%s(%s)" % (lean_name, ", ".join("%s=%s" % (p_, show(vals[p_])[:24]) for p_ in fn["params"]))))
+    return out
+
+
+GROUPS = {"loops": cases_loops, "keys": cases_keys, "store": cases_store, "txn": cases_txn, "fsinfo": cases_fsinfo, "message": cases_message, "device": cases_device}
 
 
 def run_cases(cases):
